@@ -93,7 +93,9 @@ def rand_attr(rnd, used):
     t = rnd.choice([3, 3, 3, 1, 2, 16, 16, 17, 18, 28, 5, 6, 4])
     a = dict(name=name, ns=ns, resid=resid, type=t)
     if t == 3:
-        a["value"] = rnd.choice(["", "v", "héllo wörld", "中文", "a&b<c>\"q\"", "😀", "line1\nline2", "  spaced  ", ".Main", "com.example.App"])
+        a["value"] = rnd.choice(["", "v", "héllo wörld", "中文", "a&b<c>\"q\"", "😀", "line1\nline2", "  spaced  ", ".Main", "com.example.App",
+                                 # around the one- / two-byte length prefixes of the string pool (UTF-16 length and UTF-8 byte count differ)
+                                 "a" * 127, "a" * 128, "b" * 200, "é" * 63, "é" * 64, "é" * 100, "中" * 42, "中" * 43, "中" * 50, "é" * 127 + "z", "😀" * 33])
     else:
         a["data"] = rnd.choice([0, 1, 0x7FFFFFFF, 0x80000001, 0xFFFFFFFF, 0x01010003, 0x7F020001, rnd.getrandbits(32)])
         if t == 5:
